@@ -621,7 +621,7 @@ class Kernel:
         self.preempt_at = list(points)
         self._lines = 0
 
-    def enable_func_preemption(self, files, funcs, prob, stall_prob=0.5):
+    def enable_func_preemption(self, files, funcs, prob, stall_prob=0.5, stall_dur=0.0005):
         """Every line of the named functions (of the named files) is a pre-emption point with probability
         `prob` (one scheduler decision each): a thread can lose the processor between any two lines, and these
         are the functions whose windows between system calls matter."""
@@ -631,6 +631,7 @@ class Kernel:
         self.trace_funcs = frozenset(funcs)
         self.trace_prob = prob
         self.trace_stall_prob = stall_prob
+        self.trace_stall_dur = stall_dur
 
     def _tracer(self, frame, event, arg):
         if frame.f_code.co_filename.endswith(self.trace_files):
@@ -648,7 +649,7 @@ class Kernel:
                     if self.chance(self.trace_stall_prob, 'line-stall?'):
                         # descheduled for a moment: everybody else runs until they block (the clock moves on
                         # only when nobody else is runnable)
-                        self.stall(a, 0.0005)
+                        self.stall(a, getattr(self, 'trace_stall_dur', 0.0005))
                         self.record('line-stall', frame.f_code.co_name, frame.f_lineno - frame.f_code.co_firstlineno)
                     self.enter('line:%s:%d' % (frame.f_code.co_name, frame.f_lineno - frame.f_code.co_firstlineno))
         return self._func_tracer
